@@ -442,8 +442,12 @@ func TestVF_C19_FourSquares(t *testing.T) {
 func TestVF_C19_FastMod(t *testing.T) {
 	rec := vfh.New(t, "C19")
 	defer rec.Flush()
+	var prior []*gobig.Int // moduli the same FastMod object was set to before (a reused object)
 	check := func(p, x *gobig.Int, alias bool) string {
 		var m FastMod
+		for _, q := range prior {
+			m.Set(g(q))
+		}
 		m.Set(g(p))
 		xin := g(x)
 		var ret *big.Int
@@ -519,12 +523,26 @@ func TestVF_C19_FastMod(t *testing.T) {
 			x.Neg(x)
 		}
 		alias := rapid.Bool().Draw(rt, "alias")
-		rec.Case(fmt.Sprintf("FastMod/random/negative=%v/alias=%v", x.Sign() < 0, alias), true, "fm|"+p.String()+"|"+x.String())
+		// the object may have served other moduli before: of the special form 2^b' - c' and ordinary
+		prior = nil
+		for k := rapid.IntRange(0, 2).Draw(rt, "priorSets"); k > 0; k-- {
+			pb := uint(rapid.SampledFrom([]int{16, 61, 64, 127, 256, 1024}).Draw(rt, "pb"))
+			q := new(gobig.Int).Lsh(gobig.NewInt(1), pb)
+			if rapid.Bool().Draw(rt, "priorSpecial") {
+				q.Sub(q, genBig(rt, "pc", 6))
+			} else {
+				q.Sub(q, genBig(rt, "pc", int(pb/8)-1))
+			}
+			if q.Sign() > 0 {
+				prior = append(prior, q)
+			}
+		}
+		rec.Case(fmt.Sprintf("FastMod/random/negative=%v/alias=%v/reused-object=%v", x.Sign() < 0, alias, len(prior) > 0), true, "fm|"+p.String()+"|"+x.String()+fmt.Sprint(prior))
 		rec.Sample(func() any {
 			return map[string]any{"helper": "FastMod", "b": b, "x_bits": x.BitLen(), "negative": x.Sign() < 0, "aliased": alias}
 		})
 		if s := check(p, x, alias); s != "" {
-			rec.Fail(rt, s, map[string]any{"p": p.String(), "x": x.String(), "alias": alias})
+			rec.Fail(rt, s, map[string]any{"p": p.String(), "x": x.String(), "alias": alias, "object_set_before_to": fmt.Sprint(prior)})
 		}
 	})
 }
